@@ -131,3 +131,5 @@ func resetEngineHooks() {
 func setEngineHook(h func(op string, n int) error) { faiss.Hook = h }
 
 func setEngineQuiet(q bool) { faiss.Quiet = q }
+
+func engineOpSequence() []string { return faiss.OpSequence() }
